@@ -12,7 +12,13 @@ import (
 
 // C34: lifecycle calls on one real node.
 
-func c34Call(n *testNode, op string) string {
+func c34Call(n *testNode, op string) (res string) {
+	// a panic inside a lifecycle call (e.g. memberlist's "leave after shutdown") is reported as the call's result
+	defer func() {
+		if r := recover(); r != nil {
+			res = "panic-" + strings.ReplaceAll(fmt.Sprint(r), " ", "-")
+		}
+	}()
 	switch op {
 	case "leave":
 		if err := n.S.Leave(); err != nil {
